@@ -90,3 +90,30 @@ func init() {
 		os.WriteFile(args[1], ob, 0o644)
 	}
 }
+
+func init() {
+	// find: run one seed/profile for a property; on violation minimise and write a replay file
+	extraCmds["find"] = func(args []string) {
+		prop, prof := "C02", "mixed"
+		seed := uint64(1)
+		for i := 0; i+1 < len(args); i += 2 {
+			switch args[i] {
+			case "-prop":
+				prop = args[i+1]
+			case "-profile":
+				prof = args[i+1]
+			case "-seed":
+				fmt.Sscan(args[i+1], &seed)
+			}
+		}
+		sp := RunSpec{Seed: seed, Profile: prof, Prop: prop, Fuel: 5_000_000, Stop: true}
+		res := execSpec(sp, LoadKnown(knownPath()))
+		if len(res.Violations) == 0 {
+			fmt.Println("no violation")
+			return
+		}
+		v := res.Violations[0]
+		fmt.Println(v.Sig(), "\n ", v.Msg)
+		fmt.Println(reportViolation(prop, res.Trace, v, sp))
+	}
+}
